@@ -325,16 +325,23 @@ Arguments Done {A} a.  Arguments Raises {A}.  Arguments Unmod {A}.  Arguments No
 (* ---------- compact file literals for generated cases ---------- *)
 Inductive chunk := CLit (l : list Z) | CRep (b n : Z) | CPat (seed start n : Z).
 
-Definition pat (seed i : Z) : Z := (seed + 7 * i + 13 * (i / 256) + 101 * (i / 65536)) mod 256.
+(* byte i of the pattern with seed s: (s + 7 i + 13 (i / 256) + 101 (i / 65536)) mod 256, as the harness computes it *)
+Definition pat (seed i : Z) : Z := Z.land (seed + 7 * i + 13 * (Z.shiftr i 8) + 101 * (Z.shiftr i 16)) 255.
 
-Fixpoint iota_map (g : Z -> Z) (i : Z) (k : nat) : list Z :=
-  match k with O => [] | S k' => g i :: iota_map g (i + 1) k' end.
+(* k pattern bytes from position i on, v being byte i: inside a 256-byte row the next byte is v + 7 *)
+Fixpoint pat_run (seed v i : Z) (k : nat) : list Z :=
+  match k with
+  | O => []
+  | S k' =>
+    let i' := i + 1 in
+    v :: pat_run seed (if Z.land i' 255 =? 0 then pat seed i' else Z.land (v + 7) 255) i' k'
+  end.
 
 Definition expand1 (c : chunk) : list Z :=
   match c with
   | CLit l => l
   | CRep b n => repeat b (Z.to_nat n)
-  | CPat s st n => iota_map (pat s) st (Z.to_nat n)
+  | CPat s st n => pat_run s (pat s st) st (Z.to_nat n)
   end.
 Definition expand (cs : list chunk) : list Z := flat_map expand1 cs.
 
